@@ -128,6 +128,91 @@ def mkKey (perSlot : Bool) (slot : Nat) : Nat := if perSlot then slot + 1 else 0
 def init (perSlot : Bool) (prog : List (Nat × Option R)) (b0 : List (Option R)) : Sys Nat R :=
   { blk := b0, locks := fun _ => none, ws := prog.map fun p => { key := mkKey perSlot p.1, slot := p.1, val := p.2 } }
 
+/-! ### creation of a missing segment file (`setupNewFile`)
+
+`findOneFileRegion` decides that a segment file is missing (`os.Stat`) without any lock; `setupNewFile` then takes the
+preallocation lock, opens the file with `O_CREATE` and `Truncate`s it to the segment size (no call in between that
+another writer could slip into: one transition), releases the lock, and the caller writes at the id's ideal slot. Another
+writer may have created the file, and written into it, between the decision and the open. -/
+
+inductive MkPc where
+  /-- decided "missing"; before `DualLock` of the preallocation key -/
+  | lock
+  /-- before `Open(O_CREATE…)` + `Truncate` -/
+  | open
+  /-- before `Unlock` of the preallocation key -/
+  | unlock
+  /-- `setupNewFile` returned the location -/
+  | ready
+  /-- the preallocation lock was refused: `setupNewFile` fails at once (no retry) -/
+  | busy
+deriving Repr, DecidableEq
+
+inductive MkEv (K : Type) where
+  | locked (k : K)
+  | refused (k : K)
+  | opened
+  | unlocked (k : K)
+  | none
+
+/-- one call of `setupNewFile` on the lock cache or the file system -/
+def mkStep (me : Nat) (l : Locks K) (k : K) : MkPc → Locks K × MkPc × MkEv K
+  | .lock =>
+    match tryLock l k me with
+    | some l' => (l', .open, .locked k)
+    | none => (l, .busy, .refused k)
+  | .open => (l, .unlock, .opened)
+  | .unlock => (unlock l k me, .ready, .unlocked k)
+  | .ready => (l, .ready, .none)
+  | .busy => (l, .busy, .none)
+
+/-- what `Open(flags)` + `Truncate(segment size)` leaves: `old` is the file as it is (when it exists), `fresh` a file of
+zeros. `trunc` = the open flags contain `O_TRUNC` (the seeded change; the code opens with `O_CREATE|O_RDWR`). -/
+def created {α : Type} (trunc present : Bool) (old fresh : α) : α := if present && !trunc then old else fresh
+
+/-- Writers of ONE block of ONE segment file that may not exist yet. Every writer first looks whether the file exists
+(`check`); if not it goes through `setupNewFile` (`mk`); then it does its `updateFileBlockRegion` (`rs`). -/
+inductive Pre where
+  | check
+  | mk (p : MkPc)
+  | go
+  /-- `setupNewFile` failed: the call returns an error, nothing written -/
+  | failed
+deriving Repr, DecidableEq
+
+structure Seg (K R : Type) where
+  present : Bool
+  pre : List Pre
+  /-- the block (meaningful when the file exists), the locks, the writers' `updateFileBlockRegion`s -/
+  rs : Sys K R
+
+def Seg.step (trunc : Bool) (pk : K) (n : Nat) (s : Seg K R) (i : Nat) : Seg K R :=
+  match s.pre[i]? with
+  | none => s
+  | some .check => { s with pre := s.pre.set i (if s.present then .go else .mk .lock) }
+  | some (.mk p) =>
+    match mkStep i s.rs.locks pk p with
+    | (l, p', ev) =>
+      let rs' : Sys K R := { s.rs with locks := l }
+      let pre' := s.pre.set i (match p' with
+        | .ready => .go
+        | .busy => .failed
+        | p' => .mk p')
+      match ev with
+      | .opened => { present := true, pre := pre', rs := { rs' with blk := created trunc s.present s.rs.blk (List.replicate n none) } }
+      | _ => { s with pre := pre', rs := rs' }
+  | some .go => { s with rs := Rmw.step s.rs i }
+  | some .failed => s
+
+def Seg.run (trunc : Bool) (pk : K) (n : Nat) (s : Seg K R) : List Nat → Seg K R
+  | [] => s
+  | i :: is => Seg.run trunc pk n (Seg.step trunc pk n s i) is
+
+/-- a missing segment file, block key 0, preallocation key 1, `n` slots -/
+def Seg.init (prog : List (Nat × Option R)) (n : Nat) : Seg Nat R :=
+  { present := false, pre := prog.map fun _ => .check,
+    rs := { blk := List.replicate n none, locks := fun _ => none, ws := prog.map fun p => { key := 0, slot := p.1, val := p.2 } } }
+
 end Rmw
 
 /-! ## Part 2: whole registry calls -/
@@ -150,12 +235,16 @@ inductive Key where
   | blk (seg b s : Nat)
   /-- `Update`: the logical id -/
   | id (i : Id)
+  /-- `setupNewFile`: the preallocation key of segment file `seg` -/
+  | prealloc (seg : Nat)
 deriving Repr, DecidableEq
 
 inductive Res where
   | ok
   | err
   | full
+  /-- `setupNewFile` was refused the preallocation lock -/
+  | busy
 deriving Repr, DecidableEq
 
 inductive Pc where
@@ -165,6 +254,8 @@ inductive Pc where
   | slotLock
   /-- `findOneFileRegion`: before the `ReadAt` of segment `seg`; `hole` = the remembered empty slot -/
   | find (seg : Nat) (hole : Option Nat)
+  /-- `findOneFileRegion` found segment file `seg` missing (and no hole before it): inside `setupNewFile` -/
+  | mk (seg : Nat) (p : Rmw.MkPc)
   /-- `findAndAdd`: before `DualLock` of the slot found empty (cell `a`) -/
   | physLock (a : Nat)
   /-- inside `updateFileBlockRegion` of cell `a` (the position is `W.m.pc`) -/
@@ -187,6 +278,8 @@ structure MCfg where
   c : Cfg
   /-- the seeded change: `updateFileBlockRegion` locks `blockOffset + handleInBlockOffset` -/
   perSlot : Bool := false
+  /-- the seeded change: `setupNewFile` opens with `O_TRUNC` -/
+  trunc : Bool := false
 
 structure Sys (V : Type) where
   st : St V
@@ -198,6 +291,8 @@ inductive Ev where
   | ul (k : Key)
   | rd (seg b : Nat)
   | wr (seg b : Nat)
+  /-- `Open(O_CREATE…)` + `Truncate` of segment file `seg` -/
+  | mk (seg : Nat)
   | none
 deriving Repr, DecidableEq
 
@@ -215,8 +310,9 @@ def putBlock (c : Cfg) (st : St V) (seg b : Nat) (blk : List (Option (Rec V))) :
   (List.range hpb).foldl (fun st s => write st (blockBase c seg b + s) ((blk[s]?).getD none)) st
 
 /-- `findOneFileRegion(forWriting)` between two block reads: the next segment file exists (its block is read next),
-or the search ends with the remembered hole, a new segment file, or the segment-limit error -/
-def findNext (c : Cfg) (st : St V) (id : Id) (seg : Nat) (hole : Option Nat) : St V × (Pc ⊕ Loc V) :=
+or the search ends with the remembered hole, with `setupNewFile` of the missing segment file, or with the segment-limit
+error. (The state is not touched: the file is created by a later transition.) -/
+def findNext (c : Cfg) (st : St V) (_id : Id) (seg : Nat) (hole : Option Nat) : St V × (Pc ⊕ Loc V) :=
   if c.maxSeg ≤ seg then
     (st, match hole with
       | some a => .inr (.hole a)
@@ -224,12 +320,28 @@ def findNext (c : Cfg) (st : St V) (id : Id) (seg : Nat) (hole : Option Nat) : S
   else if seg < st.nseg then (st, .inl (.find seg hole))
   else match hole with
     | some a => (st, .inr (.hole a))
-    | none => (addSeg c st, .inr (.hole (blockBase c st.nseg (blockOf c id) + slotOf id)))
+    | none => (st, .inl (.mk seg .lock))
 
 def startRmw (mc : MCfg) (w : W V) (a : Nat) (v : Option (Rec V)) : W V :=
   { w with pc := .rmw a,
            m := { key := .blk (segOfAddr mc.c a) (blkOfAddr mc.c a) (if mc.perSlot then a % hpb else 0),
                   slot := a % hpb, val := v } }
+
+/-- `findOneFileRegion` returned an error: the call returns it (after its deferred unlocks) -/
+def findFailed (w : W V) (res : Res) : W V :=
+  match w.kind with
+  | .add => { w with pc := .slotUnlock res }
+  | .set => { w with pc := .done res }
+  | .upd => { w with pc := .idUnlock res }
+  | .rm => { w with pc := .done res }
+
+/-- segment file `seg` with every slot zero -/
+def zeroSeg (c : Cfg) (st : St V) (seg : Nat) : St V :=
+  (List.range (c.md * hpb)).foldl (fun st k => write st (seg * (c.md * hpb) + k) none) st
+
+/-- `Open(O_CREATE…)` + `Truncate(segment size)` of segment file `seg` -/
+def createSeg (mc : MCfg) (st : St V) (seg : Nat) : St V :=
+  Rmw.created mc.trunc (decide (seg < st.nseg)) st (if seg < st.nseg then zeroSeg mc.c st seg else addSeg mc.c st)
 
 /-- the caller's code after `findOneFileRegion` returned, up to its next call on a lock or a file -/
 def afterFind (mc : MCfg) (timedOut : Bool) (w : W V) : Loc V → W V
@@ -245,12 +357,7 @@ def afterFind (mc : MCfg) (timedOut : Bool) (w : W V) : Loc V → W V
     | .set => startRmw mc w a (some w.r)
     | .upd => startRmw mc w a (some w.r)
     | .rm => { w with pc := .done .err }
-  | .full =>
-    match w.kind with
-    | .add => { w with pc := .slotUnlock .full }
-    | .set => { w with pc := .done .full }
-    | .upd => { w with pc := .idUnlock .full }
-    | .rm => { w with pc := .done .full }
+  | .full => findFailed w .full
 
 def continueFind (mc : MCfg) (timedOut : Bool) (st : St V) (w : W V) (seg : Nat) (hole : Option Nat) : St V × W V :=
   match findNext mc.c st w.r.id seg hole with
@@ -287,6 +394,22 @@ def stepW (mc : MCfg) (me : Nat) (timedOut : Bool) (st : St V) (l : Rmw.Locks Ke
     | .at a r => (st, l, afterFind mc timedOut w (.found a r), ev)
     | .hole a => let (st', w') := continueFind mc timedOut st w (seg + 1) (some a); (st', l, w', ev)
     | .none => let (st', w') := continueFind mc timedOut st w (seg + 1) none; (st', l, w', ev)
+  | .mk seg p =>
+    match Rmw.mkStep me l (.prealloc seg) p with
+    | (l', p', ev) =>
+      let st' := match ev with
+        | .opened => createSeg mc st seg
+        | _ => st
+      let w' := match p' with
+        | .ready => afterFind mc timedOut w (.hole (blockBase c seg (blockOf c w.r.id) + slotOf w.r.id))
+        | .busy => findFailed w .busy
+        | p' => { w with pc := .mk seg p' }
+      (st', l', w', match ev with
+        | .locked k => .lk true k
+        | .refused k => .lk false k
+        | .opened => .mk seg
+        | .unlocked k => .ul k
+        | .none => .none)
   | .physLock a =>
     let k := slotKey c w.r.id (a % hpb)
     match Rmw.tryLock l k me with
